@@ -1,3 +1,4 @@
 SPECIFICATION TSpec
+CONSTANT Mode = "C08"
 INVARIANTS Accepted Progress
 CHECK_DEADLOCK FALSE
